@@ -731,6 +731,9 @@ def _static(ctx: Ctx, ro: FuncInfo, m: RunOde) -> None:
            "are skipped or row 0 is recomputed", construct="row loop range")
     # integrator arguments
     kws = {k.arg: k.value for k in m.mk.value.keywords}
+    # scipy's RK45(fun, t0, y0, t_bound, ...): positional spelling
+    for nm_, a_ in zip(("fun", "t0", "y0", "t_bound"), m.mk.value.args):
+        kws.setdefault(nm_, a_)
     bad = []
     if const(kws.get("t0")) != 0:
         bad.append("t0 is not 0.0")
